@@ -557,6 +557,28 @@ func checkMinMax(p *Prog, l *Ledger, name, tag string, callFn *ssa.Function, m *
 	if len(distinct) < 2 {
 		problems = append(problems, "emptiness is not tested both before and after flattening a single array argument (an empty array would have nothing to compare)")
 	}
+	// the elements of an array argument are compared only when that array is the one and only argument: an element of
+	// arguments[0] is converted to a number only on paths that have found len(arguments) == 1
+	flat := Monitor{Init: "?", Also: map[string]bool{"typetest": true}, Step: func(s string, ev *Event) string {
+		switch ev.Op {
+		case "test":
+			t := strings.ReplaceAll(normName(ev.Args[0]), " ", "")
+			if t == "(len(arguments)==1)" || t == "(1==len(arguments))" {
+				if ev.Out == "true" {
+					return "single"
+				}
+				return "several"
+			}
+		case "call":
+			if len(ev.Args) > 1 && strings.HasPrefix(ev.Args[1], "arguments[0][") && s != "single" {
+				return "!an element of the first argument (" + ev.Args[1] + ") is taken as a comparand on a path that has not found the array to be the only argument: with an array first, the other arguments are dropped without a word"
+			}
+		}
+		return s
+	}}
+	for _, w := range m.G.Run(flat) {
+		problems = append(problems, w.Msg)
+	}
 	problems = uniqStrings(sortStrings(problems))
 	if len(problems) == 0 {
 		l.Discharge(rule, name, p.Pos(callFn.Pos()), "fold (in "+p.FuncKey(fi.fn)+"): every way round the loop keeps the accumulator only after finding 'element "+wantOp.String()+" accumulator' false and replaces it only after finding it true or on the first element; return acc; empty input rejected before and after flattening", true)
